@@ -424,7 +424,7 @@ NUM = ["0", "1", "-5", "5", "0x5", "0b101", "1_0", "-0", "1.5", "999999999999999
 BOOLS = ["true", "false", "1", "0", "T", "F", "TRUE", "yes", "", "t", "True", "tRUE"]
 STRS = ["hello", "ell", "", "abc", "^h.*o$", "(a|b", "l{2}", "x", "k", "a", "1", "[0-9]+", "^$", "/usr/bin", "o w"]
 CONT = ["1", "a", "x", "", "abc", "5", "true", "k", "0", "http", "maybe", "0.0", "1.5", "s", "one", "2", "300", "-212", "32768", "44"]
-ABSENT = ["1", "a", ""]
+ABSENT = ["1", "a", "", "(a|b"]          # incl. a pattern that does not compile
 OPS_V = ["==", "!=", "in", "notin", "matches", "notmatches"]
 OPS_E = ["empty", "notempty"]
 
